@@ -87,6 +87,9 @@ pub struct RawCase {
     pub fast_start: bool,
     pub title: Option<String>,
     pub ops: Vec<ROp>,
+    /// tick of the leading keyframe inserted by the strategy (recordings that do not start at zero)
+    #[serde(default)]
+    pub start: u64,
 }
 
 #[derive(Clone, Debug, PartialEq)]
@@ -722,7 +725,13 @@ pub fn rop_strategy(finish_weight: u32) -> impl Strategy<Value = ROp> {
     prop_oneof![
         10 => (ts_strategy(), vf_strategy(), prop::bool::weighted(0.5)).prop_map(|(ts, frame, key)| ROp::Video { ts, frame, key }),
         6 => (
-            prop_oneof![3 => Just(Ts::Rel(0, 0)), 2 => (-9000i64..9000, -49i8..=49).prop_map(|(d, j)| Ts::Rel(d, j)), 1 => ts_strategy()],
+            prop_oneof![
+                6 => Just(Ts::Rel(0, 0)),
+                4 => (-9000i64..9000, -49i8..=49).prop_map(|(d, j)| Ts::Rel(d, j)),
+                2 => ts_strategy(),
+                // composition offsets straddling the signed 32-bit limit
+                1 => (((1i64 << 31) - 3)..((1i64 << 31) + 3), any::<bool>()).prop_map(|(d, neg)| Ts::Rel(if neg { -d } else { d }, 0)),
+            ],
             ts_strategy(),
             vf_strategy(),
             prop::bool::weighted(0.5)
@@ -759,15 +768,15 @@ pub fn raw_case_strategy(max_ops: usize, finish_weight: u32) -> impl Strategy<Va
         any::<bool>(),
         proptest::option::weighted(0.2, "[a-z]{0,12}"),
         vec((rop_strategy(finish_weight), prop::bool::weighted(0.25)), 0..=max_ops),
-        any::<bool>(),
+        (any::<bool>(), prop_oneof![6 => Just(0u64), 2 => 0u64..10_000_000, 2 => (1u64 << 32) - 100_000..(1u64 << 33), 1 => 0u64..(1u64 << 40)]),
     )
-        .prop_map(|(codec, video_configured, audio, rate_idx, channels, fast_start, title, ops, lead_key)| {
+        .prop_map(|(codec, video_configured, audio, rate_idx, channels, fast_start, title, ops, (lead_key, start))| {
             let mut ops: Vec<ROp> = ops.into_iter().map(|(op, loose)| tidy(op, loose)).collect();
             if lead_key && !ops.is_empty() {
                 // most histories start with a proper first keyframe so that later calls reach deeper states
-                ops.insert(0, ROp::Video { ts: Ts::Abs(0, 0), frame: VF { kind: VKind::KeyCfg, size: 20, shape: 1 }, key: true });
+                ops.insert(0, ROp::Video { ts: Ts::Abs(start, 0), frame: VF { kind: VKind::KeyCfg, size: 20, shape: 1 }, key: true });
             }
-            RawCase { codec, video_configured, audio, rate_idx, channels, fast_start, title, ops }
+            RawCase { codec, video_configured, audio, rate_idx, channels, fast_start, title, ops, start }
         })
 }
 
